@@ -633,4 +633,44 @@ def selectGuarded (order : List (Fin 7)) : Fin 7 × Fin 7 × Fin 7 :=
   let pick (k : Nat) : Fin 7 := order.getD k 0
   firstGood (triples7.map fun t => (pick t.1, pick t.2.1, pick t.2.2))
 
+
+/-- Length-ordered candidate list and its ambiguity (any near-tie between neighbours). -/
+def delOrder (B : QM3) (tol : Tol) : List (Fin 7) × Bool :=
+  let srt := sortCands B
+  let rec amb : List (Fin 7 × Rat) → Bool
+    | x :: y :: rest => (!tol.exact && absR (x.2 - y.2) ≤ 4 * tol.dSq) || amb (y :: rest)
+    | _ => false
+  (srt.map (·.1), amb srt)
+
+/-- Decisions of the *repaired* `delaunay_reduce` (same loop, guarded selection). -/
+def delaunayDecideG (B0 : QM3) (exact : Bool) : St DStep :=
+  let st := delLoop B0 exact 20000 [] { S := scaleOf B0 M3.one }
+  let B := cur B0 st.T
+  let (order, amb) := delOrder B (st.tol exact B)
+  let t := selectGuarded order
+  (st.flag amb).push B0 (.sel t.1 t.2.1 t.2.2) (selMat t.1 t.2.1 t.2.2)
+
+def delaunayTG (B0 : QM3) (exact : Bool) : M3 :=
+  fixParity (applyTrace ((delaunayDecideG B0 exact).tr.reverse.map DStep.mat))
+
+def delaunayResG (B0 : QM3) (exact : Bool) : Res :=
+  let st := delaunayDecideG B0 exact
+  ⟨delaunayTG B0 exact, st.frag, st.bad, st.tr.length⟩
+
+
+/-! ## The checked public API (`Lattice::minkowski_reduce`, `Lattice::niggli_reduce`) -/
+
+/-- `Lattice::minkowski_reduce`: `Err` (here `none`) when the a-posteriori `is_minkowski_reduced` fails.
+`d`: uncertainty given to the predicate (0 = literal). -/
+def minkowskiChecked (B0 : QM3) (exact : Bool) (d : Rat) : Option (QM3 × M3) :=
+  let T := minkowskiT B0 exact
+  let R := cur B0 T
+  if isMinkowskiK R d = some true then some (R, T) else none
+
+/-- `Lattice::niggli_reduce`. -/
+def niggliChecked (B0 : QM3) (exact : Bool) (d : Rat) : Option (QM3 × M3) :=
+  let T := niggliT B0 exact
+  let R := cur B0 T
+  if isNiggliK R d = some true then some (R, T) else none
+
 end Moyo.Reduce
